@@ -562,9 +562,15 @@ func (e *Evaluator) evalDotExp(node *ast.DotExp, env *object.Env) object.Object 
 		return left
 	}
 
+	obj, isObj := left.(*object.Obj)
+
+	if !isObj {
+		return e.newError(node, fail.ErrDotOperatorNotSupported, left.Type())
+	}
+
 	key := node.Key.(*ast.Identifier)
 
-	return e.evalObjectIndexExp(left.(*object.Obj), key.Value, node)
+	return e.evalObjectIndexExp(obj, key.Value, node)
 }
 
 func (e *Evaluator) evalString(node *ast.StringLiteral, _ *object.Env) object.Object {
